@@ -9,7 +9,7 @@ LEVEL = "exploration"
 RULE = ("recursive random values: None, bool, ints (incl. beyond 2**64), floats (+-0.0, 1e308, 5e-324, inf, nan), "
         "unicode strings (empty, quotes, control characters, U+2028, astral), UUIDs, a registered third-party type "
         "(decimal.Decimal, fractions.Fraction, a three-level plain-class chain Money > TaxedMoney > Tip registered base "
-        "first, a sub-class registered before its base, a registered sub-class of uuid.UUID, a registered iterable type (collections.deque)) and an iterable SubclassJSONSerializer sub-class, a 4-level SubclassJSONSerializer hierarchy with nested serialisable fields, lists nested "
+        "first, a sub-class registered before its base, a registered sub-class of uuid.UUID, a registered iterable type (collections.deque), registered types and a serialisable class that derive from builtins (named tuple, IntEnum, str)) and an iterable SubclassJSONSerializer sub-class, a 4-level SubclassJSONSerializer hierarchy with nested serialisable fields, lists nested "
         "to depth 5 and empty lists; oracle: from_json(json.loads(json.dumps(to_json(v)))) equals v (NaN-aware) with "
         "type(x) is type(y) at every position and every serialised object dict carries its fully qualified tag.  "
         "Non-trivial = value contains an object or a nested list; distinct = type-structure signature of the value")
@@ -24,7 +24,8 @@ def plan(tier):
             "min_nontrivial": 300,
             "min_counters": {"objects_roundtripped": 5000, "tags_checked": 5000, "leaf:float": 1000, "leaf:uuid": 300,
                              "leaf:decimal": 300, "lists": 3000, "leaf:taxedmoney": 100, "leaf:entityid": 100,
-                             "leaf:early": 100, "leaf:tip": 100, "leaf:deque": 100}}
+                             "leaf:early": 100, "leaf:tip": 100, "leaf:deque": 100, "leaf:point": 100, "leaf:level": 100,
+                             "leaf:name": 100}}
 
 
 def setup(ctx):
@@ -44,7 +45,13 @@ def gen_value(rng, depth):
     if depth <= 0 or r < 0.45:
         k = rng.choice(["none", "bool", "int", "float", "str", "uuid", "decimal", "reg"])
         if k == "reg":
-            cls = rng.choice(["Money", "TaxedMoney", "Tip", "Early", "EntityId", "Fraction", "Deque"])
+            cls = rng.choice(["Money", "TaxedMoney", "Tip", "Early", "EntityId", "Fraction", "Deque", "Point", "Level", "Name"])
+            if cls == "Point":
+                return ["reg", cls, rng.randint(-3, 3), rng.randint(-3, 3)]
+            if cls == "Level":
+                return ["reg", cls, rng.choice([1, 2])]
+            if cls == "Name":
+                return ["reg", cls, rng.choice(STRINGS)]
             if cls == "Deque":
                 return ["reg", cls, [gen_value(rng, 0) for _ in range(rng.randint(0, 3))]]
             if cls == "EntityId":
@@ -112,6 +119,12 @@ def materialise(v, jm):
         if v[1] == "Deque":
             import collections
             return collections.deque(materialise(x, jm) for x in v[2])
+        if v[1] == "Point":
+            return jm.Point(v[2], v[3])
+        if v[1] == "Level":
+            return jm.Level(v[2])
+        if v[1] == "Name":
+            return jm.Name(v[2])
         n = {"Money": 2, "Early": 2, "TaxedMoney": 3, "Tip": 4}[v[1]]
         return getattr(jm, v[1])(*v[2:2 + n])
     if k == "list":
@@ -182,6 +195,11 @@ def jm_Money():
     return jsonmodel.Money
 
 
+def jm_builtin_derived():
+    from models import jsonmodel
+    return (jsonmodel.Point, jsonmodel.Level, jsonmodel.Name)
+
+
 def check_tags(value, ser, path, problems, C):
     import collections
     import dataclasses
@@ -194,7 +212,7 @@ def check_tags(value, ser, path, problems, C):
             return
         for i, (v, s) in enumerate(zip(value, ser)):
             check_tags(v, s, f"{path}[{i}]", problems, C)
-    elif dataclasses.is_dataclass(value) or isinstance(value, (uuid.UUID, decimal.Decimal, fractions.Fraction, jm_Money(), collections.deque)):
+    elif dataclasses.is_dataclass(value) or isinstance(value, (uuid.UUID, decimal.Decimal, fractions.Fraction, jm_Money(), collections.deque) + jm_builtin_derived()):
         C["tags_checked"] += 1
         want = type(value).__module__ + "." + type(value).__name__
         if not isinstance(ser, dict) or ser.get("__json_type__") != want:
